@@ -1,0 +1,13 @@
+//go:build verif
+
+package cursor
+
+// Exports for the verification harness (/verif, property C13). Pure additions, compiled only with -tags verif.
+
+// VerifC13ApplyStatePos runs crsr.applyStatePos on a cursor without sources: the position string is split and every
+// part is parsed exactly as for a real cursor; only the final SetPos calls have nothing to act on.
+func VerifC13ApplyStatePos(pos string) error {
+	cur := &crsr{jDescs: map[string]*jrnlDesc{}}
+	cur.state.Pos = pos
+	return cur.applyStatePos()
+}
